@@ -94,17 +94,20 @@ Proof.
   destruct (C2 fd v1 F NX G1) as (v2 & G2 & E2). exists v2. split; [exact G2|congruence].
 Qed.
 
+Lemma k_get_set_nefd : forall k n fd, k_get (k_set_nefd k n) fd = k_get k fd.
+Proof. reflexivity. Qed.
+
 Lemma eventfd_new : forall k b k1 fd, k_eventfd k b = (k1, inl fd) -> fd = next_fd k /\ k_get k1 fd = Some (vfd0 K_EVENTFD).
 Proof.
   intros k b k1 fd. unfold k_eventfd. destruct (emfile (flt k)); [discriminate|].
-  destruct (no_eventfd (flt k) || (b && no_eventfd2 (flt k))); [discriminate|].
-  unfold k_alloc. intros E. inversion E; subst. rewrite k_get_put, Z.eqb_refl. auto.
+  destruct (efd_cut k && (no_eventfd (flt k) || (b && no_eventfd2 (flt k)))); [discriminate|].
+  unfold k_alloc. intros E. inversion E; subst. rewrite k_get_set_nefd, k_get_put, Z.eqb_refl. auto.
 Qed.
 
 Lemma eventfd_next : forall k b, next_fd k <= next_fd (fst (k_eventfd k b)).
 Proof.
   intros k b. unfold k_eventfd. destruct (emfile (flt k)); [cbn; lia|].
-  destruct (no_eventfd (flt k) || (b && no_eventfd2 (flt k))); cbn; lia.
+  destruct (efd_cut k && (no_eventfd (flt k) || (b && no_eventfd2 (flt k)))); cbn; lia.
 Qed.
 
 Lemma grab_new : forall k u k1 fd u', eventfd_grab k u = (k1, inl fd, u') ->
@@ -353,12 +356,12 @@ Proof.
   unfold FFr in FU. cbn [res_state] in FU. destruct (FF_parts _ _ FU) as (C1 & T1 & _ & A1 & B1 & W1).
   set (s2 := do_close s1 (rw_rfd s1 j)).
   assert (F2 : F3n s1 s2) by apply do_close_F3.
-  set (s3 := if efd_raw s2 =? 0 then do_close s2 (rw_wfd s2 j) else s2).
-  assert (F3' : F3n s2 s3) by (unfold s3; destruct (efd_raw s2 =? 0); [apply do_close_F3|apply F3_refl]).
+  set (s3 := if raw_is_pipe s2 j then do_close s2 (rw_wfd s2 j) else s2).
+  assert (F3' : F3n s2 s3) by (unfold s3; destruct (raw_is_pipe s2 j); [apply do_close_F3|apply F3_refl]).
   assert (RW2 : rw_reg s2 = rw_reg s1 /\ rw_rfd s2 = rw_rfd s1 /\ rw_wfd s2 = rw_wfd s1).
   { unfold s2, do_close. destruct (k_close (kern s1) (rw_rfd s1 j)) as [k ok]. destruct ok; repeat split. }
   assert (RW3 : rw_reg s3 = rw_reg s2 /\ rw_rfd s3 = rw_rfd s2 /\ rw_wfd s3 = rw_wfd s2).
-  { unfold s3. destruct (efd_raw s2 =? 0); [|repeat split]. unfold do_close.
+  { unfold s3. destruct (raw_is_pipe s2 j); [|repeat split]. unfold do_close.
     destruct (k_close (kern s2) (rw_wfd s2 j)) as [k ok]. destruct ok; repeat split. }
   destruct RW2 as (P2 & Q2 & V2). destruct RW3 as (P3 & Q3 & V3).
   destruct (F3n_parts _ _ F2) as [C2 T2]. destruct (F3n_parts _ _ F3') as [C3 T3].
@@ -374,7 +377,7 @@ Lemma raw_post_F3 : forall s j,
                          ((vkind v = K_EVENTFD /\ y = rw_wfd s j) \/ (vkind v = K_PIPE_W /\ y = vpeer v)))
      s (raw_post s j).
 Proof.
-  intros s j. unfold raw_post. destruct (efd_raw s =? 0).
+  intros s j. unfold raw_post. destruct (raw_is_pipe s j).
   - pose proof (CNTx_write (kern s) (rw_wfd s j) 1 0) as C. destruct (k_write (kern s) (rw_wfd s j) 1 0) as [k1 x].
     apply F3_kern. exact C.
   - pose proof (CNTx_write (kern s) (rw_wfd s j) 8 1) as C. destruct (k_write (kern s) (rw_wfd s j) 8 1) as [k1 x].
